@@ -45,6 +45,11 @@ def main():
             k = [kk for kk, f in decls if f == "rule"][0]
             _, code, lexeme = pipescen.RULE_FAULT[k]
             want = {(code, pipescen.KINDS[k][0], lexeme)}
+        for a, recno, rec in res.get("trace_rejected", []):
+            what = "%s:%s" % (rec.get("ev"), rec.get("stage", rec.get("index", ""))) if rec else "?"
+            rep.add("stage-trace-rejected:" + what, labels=labels | {"stage-trace"},
+                    detail={"arrangement": a, "first_unmatched_record": rec, "record_number": recno},
+                    replay={"scenario": name, "arrangement": a})
         for a, obs in res["runs"]:
             total += 1
             replay = {"scenario": name, "arrangement": a, "files": [(fn, t) for fn, t, _ in pipecheck.build_files(decls, a)]}
